@@ -78,8 +78,15 @@ func c07Probes() []fo.Decl {
 		mk("zwUse", "let zwUse () =\n  zwGlob + \"!\""),
 		mk("zwByMatch", "let zwByMatch =\n  match ZwA 3 with\n  | ZwA zwGlob -> zwGlob + 1\n  | _ -> 0"),
 		mk("zwUse2", "let zwUse2 (a:string) =\n  [a; zwGlob]"),
+		// hand-written Go helpers over a type of this package: the declaration block needs the type
+		// before it and is needed by its user; as a .foi argument it stands between two .fo files
+		mk("ZwMid ZwMx ZwMs", "type ZwMid = {ZwMx: int; ZwMs: string}"),
+		mk("zzmid ZzMidLen ZzMidMk", c07MidFoi),
+		mk("zwMidUse", "let zwMidUse (m:ZwMid) =\n  let k = zzmid.ZzMidMk 2\n  zzmid.ZzMidLen m + k.ZwMx"),
 	}
 }
+
+const c07MidFoi = "package_info zzmid =\n  let ZzMidLen: ZwMid->int\n  let ZzMidMk: int->ZwMid"
 
 // c07Uncompared: declarations whose translation legitimately depends on their position (the
 // early users of c07Probes).
@@ -94,15 +101,26 @@ type c07History struct {
 	kind  string
 	files [][]fo.Decl // one declaration list per file, in invocation order
 	names []string
+	foi   map[int]bool // files passed as a .foi argument (declaration blocks only)
 }
 
 func (h *c07History) render(pkg string) (map[string]string, []string) {
 	files := map[string]string{}
 	var order []string
 	for i, ds := range h.files {
+		if h.foi[i] {
+			name := fmt.Sprintf("mid%d.foi", i)
+			var b strings.Builder
+			for _, d := range ds {
+				b.WriteString(d.(*fo.RawDecl).Text + "\n\n")
+			}
+			files[name] = b.String()
+			order = append(order, name)
+			continue
+		}
 		p := &fo.Program{Pkg: pkg, Imports: []string{"frt", "slice", "strings"}, Decls: ds}
 		// stems ending in the letters of the extension, containing a dot: each X.fo must yield gen_X.go
-		name := []string{"f0.fo", "hello.fo", "a.b.fo", "off.fo", "go.fo"}[i%5]
+		name := []string{"f0.fo", "hello.fo", "a.b.fo", "off.fo", "go.fo", "k6.fo", "foi.fo"}[i%7]
 		if len(h.files) == 1 {
 			name = "x.fo"
 		}
@@ -110,6 +128,37 @@ func (h *c07History) render(pkg string) (map[string]string, []string) {
 		order = append(order, name)
 	}
 	return files, order
+}
+
+// c07FoiSplit turns the probe declaration block (c07MidFoi) into a .foi argument of its own at the
+// place where it stands: the file holding it is cut in front of and behind it.
+func c07FoiSplit(h *c07History) bool {
+	for fi, ds := range h.files {
+		for di, d := range ds {
+			rd, ok := d.(*fo.RawDecl)
+			if !ok || rd.Text != c07MidFoi {
+				continue
+			}
+			var files [][]fo.Decl
+			foi := map[int]bool{}
+			files = append(files, h.files[:fi]...)
+			if di > 0 {
+				files = append(files, append([]fo.Decl{}, ds[:di]...))
+			}
+			foi[len(files)] = true
+			files = append(files, []fo.Decl{d})
+			if di+1 < len(ds) {
+				files = append(files, append([]fo.Decl{}, ds[di+1:]...))
+			}
+			files = append(files, h.files[fi+1:]...)
+			if len(files) < 2 {
+				return false
+			}
+			h.files, h.foi = files, foi
+			return true
+		}
+	}
+	return false
 }
 
 func c07Histories(rng *core.Rand, p *fo.Program, n int, decoyBase int) []*c07History {
@@ -225,10 +274,19 @@ func c07Histories(rng *core.Rand, p *fo.Program, n int, decoyBase int) []*c07His
 		} else {
 			h.files = [][]fo.Decl{seq}
 		}
+		if rng.Chance(0.4) && c07FoiSplit(h) {
+			kinds = append(kinds, "foi-between-files")
+		}
 		if len(kinds) == 0 {
 			kinds = []string{"identity"}
 		}
 		h.kind = strings.Join(kinds, "+")
+		out = append(out, h)
+	}
+	// the base order with the declaration block of the hand-written helpers as a .foi argument
+	// between the file that defines their type and the file that uses them
+	if h := (&c07History{files: [][]fo.Decl{append([]fo.Decl{}, p.Decls...)}}); c07FoiSplit(h) {
+		h.kind = "foi-between-files"
 		out = append(out, h)
 	}
 	// one bulk history: 70 complete decoy sets (140 forward references in type groups, 70 generic
@@ -348,7 +406,7 @@ func runC07(r *core.Run, tier string) {
 	if tier == "thorough" {
 		nPools, nHist = 400, 30
 	}
-	r.Rule("a case is one history of a pool of 20..40 top-level definitions (a generated program): a random dependency-respecting permutation, deletion of definitions nothing kept refers to, insertion of unrelated decoy definitions (records, unions, generic records and their instantiations, generic functions, package_info blocks, type ... and ... groups, _.F lambdas, matches), and cutting the sequence into 1..4 files of one fc invocation (plus a .foi argument); one bulk history per pool puts 70 complete decoy sets in front of it (in one file, and as a first file of two); every pool also holds probe definitions (two records, plain and generic, with one field-name set, an uncompared early user of the field set that may be placed between them, and a compared user after both); for every Go declaration present both in the history and in the pool's base order the text (with _vN renumbered by first occurrence, extracted with go/parser) must be identical; the set of files written must be exactly gen_X.go per X.fo and nothing for the .foi; the hook-H2 trace must show the same number of type variables allocated by the same definition in every history; non-trivial = history differs from the base order; distinct by rendered text hash")
+	r.Rule("a case is one history of a pool of 20..40 top-level definitions (a generated program): a random dependency-respecting permutation, deletion of definitions nothing kept refers to, insertion of unrelated decoy definitions (records, unions, generic records and their instantiations, generic functions, package_info blocks, type ... and ... groups, _.F lambdas, matches), and cutting the sequence into 1..4 files of one fc invocation (plus a leading .foi argument; the declaration block of two hand-written helpers over a type of the package is, in 40% of the histories and once per pool on the base order, passed as a .foi argument of its own BETWEEN the file defining the type and the file using the helpers); one bulk history per pool puts 70 complete decoy sets in front of it (in one file, and as a first file of two); every pool also holds probe definitions (two records, plain and generic, with one field-name set, an uncompared early user of the field set that may be placed between them, and a compared user after both); for every Go declaration present both in the history and in the pool's base order the text (with _vN renumbered by first occurrence, extracted with go/parser) must be identical; the set of files written must be exactly gen_X.go per X.fo and nothing for the .foi; the hook-H2 trace must show the same number of type variables allocated by the same definition in every history; non-trivial = history differs from the base order; distinct by rendered text hash")
 	r.Assume("the reference relation is over-approximated textually: a definition depends on every earlier definition one of whose identifiers occurs in it", "decoys use identifiers no pool definition contains")
 	// pools: the C01 profile with more top-level variables (their right-hand sides are parsed
 	// in the single long-lived root scope, where a leak reaches every later definition)
@@ -424,7 +482,10 @@ func runC07(r *core.Run, tier string) {
 		// files written
 		want := []string{"ext.foi"}
 		for _, n := range order {
-			want = append(want, n, "gen_"+strings.TrimSuffix(n, ".fo")+".go")
+			want = append(want, n)
+			if strings.HasSuffix(n, ".fo") {
+				want = append(want, "gen_"+strings.TrimSuffix(n, ".fo")+".go")
+			}
 		}
 		sort.Strings(want)
 		if strings.Join(want, " ") != strings.Join(o.files, " ") {
